@@ -134,6 +134,10 @@ Definition c01_model (c : c01_case) : string :=
           let wires := match Exporter.r_wire x1, Exporter.r_wire x2 with
                        | Some a, Some b => [a; b] | Some a, None => [a] | None, Some b => [b] | None, None => []
                        end in
+          (* pion/dtls v2 receives each datagram into an 8192-byte buffer: a record longer than that
+             (13 header + 8 nonce + payload + 16 tag) is truncated, fails authentication and is dropped *)
+          let wires := if String.eqb (k_transport c) "dtls" || String.eqb (k_transport c) "dtlsbig"
+                       then filter (fun w => (blen w <=? 8155)%N) wires else wires in
           let ms := collect (negb (is_datagram (k_transport c))) [] wires in
           "sent=" ++ show_N n1 ++ "," ++ show_N n2 ++ " n=" ++ show_nat (List.length ms) ++
           String.concat "" (map show_delivered ms)
